@@ -21,6 +21,9 @@ import (
 const (
 	peersDefaultPath = "peers"
 	peersVersion     = uint8(0)
+
+	// peerMinSerializeSize is the size of a stored peer with an empty address.
+	peerMinSerializeSize = 12
 )
 
 type Peer struct {
@@ -184,6 +187,13 @@ func (repo *StoragePeerRepository) Load(ctx context.Context) error {
 		return errors.Wrap(err, "Failed to read peers count")
 	}
 
+	// The count is only used to size the list. Don't trust a count that is negative or more than
+	// the data could contain.
+	maxCount := int32(buffer.Len() / peerMinSerializeSize)
+	if count < 0 || count > maxCount {
+		count = maxCount
+	}
+
 	// Reset
 	repo.list = make(PeerList, 0, count)
 
@@ -254,13 +264,17 @@ func (repo *StoragePeerRepository) Clear(ctx context.Context) error {
 	return repo.store.Remove(ctx, repo.path)
 }
 
-func readPeer(r io.Reader, version uint8) (Peer, error) {
+func readPeer(r *bytes.Buffer, version uint8) (Peer, error) {
 	result := Peer{}
 
 	// Read address
 	var addressSize int32
 	if err := binary.Read(r, binary.LittleEndian, &addressSize); err != nil {
 		return result, err
+	}
+
+	if addressSize < 0 || int(addressSize) > r.Len() {
+		return result, errors.New("Invalid address size")
 	}
 
 	addressData := make([]byte, addressSize)
